@@ -23,3 +23,94 @@ pub(crate) const fn seed() -> u64 {
 }
 #[allow(dead_code)]
 pub(crate) const SEED: u64 = seed();
+
+/// Error messages are built with `id.to_string()`; nobody inspects them here. Formatting a symbolic
+/// u64 is the most expensive thing in these harnesses, so Display for ExId / Cursor writes nothing.
+fn stub_exid_fmt<'a, 'b, 'c>(_id: &'a crate::exid::ExId, _f: &'b mut std::fmt::Formatter<'c>) -> std::fmt::Result {
+    Ok(())
+}
+
+// G-IDCONV: converting an external object id / cursor with a wire-controlled counter into an internal id.
+fn stub_actor_random() -> crate::ActorId {
+    crate::ActorId::from(&[0x11u8, 0x22][..])
+}
+
+fn stub_random_state_new() -> std::collections::hash_map::RandomState {
+    // SAFETY-free: RandomState is two u64 keys; build one from fixed keys via transmute-free path is impossible,
+    // so reuse the (deterministic under Kani) default construction of a BuildHasherDefault is not an option either.
+    unsafe { std::mem::transmute::<[u64; 2], std::collections::hash_map::RandomState>([1, 2]) }
+}
+
+/// exid_to_opid on a document whose (sorted) actor table holds actors A < B: for ANY counter, ANY
+/// actor-index hint and an id naming A, B or an absent actor C (A < C < B), the result is the internal
+/// id (counter, index of that actor) -- through the hint when it is right, through the lookup
+/// fallback when it is stale or out of range -- an error when the actor is not in this replica
+/// (never another actor's object) or when the counter cannot name an op; never a panic.
+#[kani::proof]
+#[kani::unwind(18)]
+#[kani::stub(crate::ActorId::random, stub_actor_random)]
+#[kani::stub(std::collections::hash_map::RandomState::new, stub_random_state_new)]
+#[kani::stub(alloc::fmt::format, stub_format)]
+#[kani::stub(<crate::exid::ExId as std::fmt::Display>::fmt, stub_exid_fmt)]
+fn idconv_exid_to_opid_total() {
+    let mut doc = crate::Automerge::new();
+    doc.ops.actors.push(crate::ActorId::from(&[0x33u8][..]));
+    doc.ops.actors.push(crate::ActorId::from(&[0x55u8][..]));
+    let which: u8 = kani::any();
+    kani::assume(which < 3);
+    let actor = crate::ActorId::from(&[[0x33u8, 0x55, 0x44][which as usize]][..]);
+    let ctr: u64 = kani::any();
+    let hint: usize = kani::any();
+    let id = crate::ObjId::Id(ctr, actor, hint);
+    let r = doc.exid_to_opid(&id);
+    match &r {
+        Ok(o) => {
+            assert!(which < 2, "an id of an actor this replica does not know must not resolve");
+            assert!(o.counter() == ctr && o.actor() == which as usize);
+            kani::cover!(hint != which as usize, "resolved through the lookup fallback");
+            kani::cover!(hint == which as usize, "resolved through the hint");
+            kani::cover!(hint > 2, "hint beyond the actor table");
+        }
+        Err(_) => {
+            assert!(which == 2 || ctr > u32::MAX as u64);
+            kani::cover!(which < 2 && ctr > u32::MAX as u64, "oversized counter rejected");
+            kani::cover!(which == 2, "unknown actor rejected");
+        }
+    }
+    std::mem::forget(r);
+    std::mem::forget(id);
+    std::mem::forget(doc);
+}
+
+/// op_cursor_to_opid (behind get_cursor_position) never panics, whatever counter the decoded cursor carries.
+#[kani::proof]
+#[kani::unwind(18)]
+#[kani::stub(crate::ActorId::random, stub_actor_random)]
+#[kani::stub(std::collections::hash_map::RandomState::new, stub_random_state_new)]
+#[kani::stub(alloc::fmt::format, stub_format)]
+fn idconv_op_cursor_to_opid_total() {
+    let mut doc = crate::Automerge::new();
+    let actor = crate::ActorId::from(&[0x33u8][..]);
+    doc.ops.actors.push(actor.clone());
+    let ctr: u64 = kani::any();
+    let before: bool = kani::any();
+    let c = crate::cursor::OpCursor {
+        ctr,
+        actor,
+        move_cursor: if before { crate::cursor::MoveCursor::Before } else { crate::cursor::MoveCursor::After },
+    };
+    let r = doc.op_cursor_to_opid(&c, None);
+    match &r {
+        Ok(o) => {
+            assert!(o.counter() == ctr && o.actor() == 0);
+            kani::cover!(ctr == u32::MAX as u64, "largest representable counter resolves");
+        }
+        Err(_) => {
+            assert!(ctr > u32::MAX as u64);
+            kani::cover!(ctr > u32::MAX as u64, "oversized counter rejected");
+        }
+    }
+    std::mem::forget(r);
+    std::mem::forget(c);
+    std::mem::forget(doc);
+}
